@@ -108,7 +108,7 @@ def gen_graph(rng, cyc=False, rich=True, nmin=3, nmax=7):
             sub = "Linux/%s%s/%s" % (n, " dir" if spaces else "", v)
             decls.append({"name": n, "ver": v, "sub": sub, "table": table})
         if rng.random() < 0.85:
-            cur[n] = rng.choice(vs)
+            cur[n] = rng.choice(vs) if (not rich or rng.random() > 0.03) else "9"      # rarely: a tag on an undeclared version
         if rng.random() < 0.3:
             beta[n] = rng.choice(vs)
     return {"names": names, "pool": pool, "pathvars": pathvars, "space_root": space_root,
@@ -139,15 +139,18 @@ def gen_request(rng, g, op=None, plain=False):
         req["name"] = rng.choice(sorted(beta))
         vs = [d["ver"] for d in g["decls"] if d["name"] == req["name"]]
         req["ver"] = {"v": rng.choice(vs)}
+    if req["tags"] and rng.random() < 0.25:
+        req["tags"] = rng.choice([["beta", "current"], ["current", "beta"], ["current"]])
     if req["op"] == "unsetup":
-        req["ver"] = None
+        # `unsetup p v`: the version is only compared with the set-up one (a warning)
+        req["ver"] = {"v": rng.choice(vs)} if vs and rng.random() < 0.2 else None
         req["tags"] = []
     return req
 
 
 def gen_prior(rng, g, mode=None):
     """Prior environment as raw strings (`$S` = stack root).  Returns (env, mode)."""
-    mode = mode or rng.choice(["clean", "clean", "dups", "empties", "libp_set", "preset", "contained", "delim"])
+    mode = mode or rng.choice(["clean", "clean", "dups", "empties", "libp_set", "preset", "contained", "delim", "stale"])
     env = {"PATH": BASE_PATH}
     d = rng.choice(g["decls"])
     if mode == "dups":
@@ -162,10 +165,42 @@ def gen_prior(rng, g, mode=None):
         env[d["name"].upper() + "_X"] = "old value"
     elif mode == "contained":
         env["PATH"] = "/usr/bin:$S/%s/bin:/bin" % d["sub"]
+    elif mode == "stale":
+        # a record eups wrote for a version that has been undeclared since (findSetupProduct finds nothing)
+        n = d["name"]
+        env["SETUP_" + n.upper()] = "%s 7 -f Linux -Z $SZ" % n
+        env[n.upper() + "_DIR"] = "$S/Linux/%s/7" % n
+        env["PATH"] = "$S/Linux/%s/7/bin:%s" % (n, BASE_PATH)
     elif mode == "delim" and "XP" in g["pathvars"]:
         dl = g["pathvars"]["XP"]
         env["XP"] = dl.join(["/q", "/r", "/q"])
     return env, mode
+
+
+def small_graphs():
+    """Every graph over names a, b, c x versions 1, 2 (current = 1) in which each of the six possible dependency
+    lines a1->b, a1->c, a2->b, a2->c, b1->c, b2->c is one of: absent, required bare, required `2`, optional `-j 1`
+    (4^6 = 4096 graphs), each with one fixed history that switches versions, uses keep, max-depth and unsetup."""
+    import itertools
+    choices = [None,
+               {"opt": False, "just": False, "spec": {"kind": "bare"}},
+               {"opt": False, "just": False, "spec": {"kind": "explicit", "v": "2"}},
+               {"opt": True, "just": True, "spec": {"kind": "explicit", "v": "1"}}]
+    lines = [("a", "1", "b"), ("a", "1", "c"), ("a", "2", "b"), ("a", "2", "c"), ("b", "1", "c"), ("b", "2", "c")]
+    hist = [{"op": "setup", "name": "a", "ver": None, "keep": False, "max_depth": -1, "tags": [], "inexact": False},
+            {"op": "setup", "name": "a", "ver": {"v": "2"}, "keep": False, "max_depth": 1, "tags": [], "inexact": False},
+            {"op": "setup", "name": "b", "ver": {"v": "2"}, "keep": True, "max_depth": -1, "tags": [], "inexact": False},
+            {"op": "unsetup", "name": "a", "ver": None, "keep": False, "max_depth": -1, "tags": [], "inexact": False}]
+    for combo in itertools.product(range(4), repeat=6):
+        tables = {(n, v): [{"a": "prepend", "var": "PATH", "own": True, "val": "/bin", "append": False}]
+                  for n in "abc" for v in "12"}
+        for (n, v, m), c in zip(lines, combo):
+            if choices[c] is not None:
+                tables[(n, v)].append(dict(choices[c], a="dep", name=m))
+        g = {"names": ["a", "b", "c"], "pool": ["1", "2"], "pathvars": {"PATH": ":", "LIBP": ":"}, "space_root": False,
+             "decls": [{"name": n, "ver": v, "sub": "Linux/%s/%s" % (n, v), "table": t} for (n, v), t in sorted(tables.items())],
+             "tags": {"current": {"a": "1", "b": "1", "c": "1"}, "beta": {}}, "cyc": False}
+        yield {"graph": g, "prior": {"PATH": BASE_PATH}, "prior_mode": "exhaustive", "history": [dict(h) for h in hist]}
 
 
 def gen_case(rng, cyc=None, nreq=None, plain=False):
@@ -448,7 +483,7 @@ def run_history(case):
     root = common.scratch("setup")
     try:
         S, ud = install(case["graph"], root)
-        env = {k: v.replace("$S", S) for k, v in case["prior"].items()}
+        env = {k: v.replace("$SZ", S.replace(" ", "-+-")).replace("$S", S) for k, v in case["prior"].items()}
         outs = []
         for req in case["history"]:
             r = common.in_child(_do_request, S, ud, env, req, _timeout=60)
